@@ -59,13 +59,13 @@ def canon(o: Any) -> Any:  # noqa: WPS212, WPS231
     if isinstance(o, PolyhedralTermList):
         return {"TL": [canon(t) for t in o.terms]}
     if isinstance(o, PolyhedralIoContract):
-        return {"C": [[v.name for v in o.inputvars], [v.name for v in o.outputvars], canon(o.a), canon(o.g)]}
+        return {"C": [[_vname(v) for v in o.inputvars], [_vname(v) for v in o.outputvars], canon(o.a), canon(o.g)]}
     if isinstance(o, NestedPolyhedra):
         return {"N": [canon(tl) for tl in o.nested_termlist]}
     if isinstance(o, PolyhedralIoContractCompound):
-        return {"CC": [[v.name for v in o.inputvars], [v.name for v in o.outputvars], canon(o.a), canon(o.g)]}
+        return {"CC": [[_vname(v) for v in o.inputvars], [_vname(v) for v in o.outputvars], canon(o.a), canon(o.g)]}
     if isinstance(o, IoContract):
-        return {"IOC": [[v.name for v in o.inputvars], [v.name for v in o.outputvars], canon(o.a), canon(o.g)]}
+        return {"IOC": [[_vname(v) for v in o.inputvars], [_vname(v) for v in o.outputvars], canon(o.a), canon(o.g)]}
     if isinstance(o, list):
         return {"L": [canon(x) for x in o]}
     if isinstance(o, tuple):
@@ -75,6 +75,11 @@ def canon(o: Any) -> Any:  # noqa: WPS212, WPS231
     if isinstance(o, np.ndarray):
         return {"A": [list(o.shape), str(o.dtype), [_cnum(x) for x in o.ravel().tolist()]]}
     return {"OBJ": type(o).__module__ + "." + type(o).__name__}
+
+
+def _vname(v: Any) -> Any:
+    """Name of a Var; anything else (only possible after the code under test or the vandal put it there) is kept visible."""
+    return v.name if isinstance(v, Var) else {"NOT_A_VAR": repr(v)[:60]}
 
 
 def _cnum(v: Any) -> Any:
